@@ -260,6 +260,16 @@ impl<'l, T: Debug> OrderedLocalQueue<'l, T> {
             .is_ok()
     }
 
+    /// position of this local queue among the shared queue's local queues (verification hooks)
+    #[cfg(open_coroutine_verif)]
+    fn verif_index(&self) -> usize {
+        self.shared
+            .local_queues
+            .iter()
+            .position(|q| std::ptr::eq(q, self.queue))
+            .unwrap_or(usize::MAX)
+    }
+
     fn release_lock(&self) {
         self.stealing.store(false, Ordering::Release);
     }
@@ -305,6 +315,10 @@ impl<'l, T: Debug> OrderedLocalQueue<'l, T> {
     fn push_to_global(&self, priority: c_longlong, item: T) {
         //把本地队列的一半放到全局队列
         let count = self.local_len() / 2;
+        #[cfg(open_coroutine_verif)]
+        crate::common::verif::emit(|| {
+            format!(r#""ev":"spill_b","q":{},"count":{count}"#, self.verif_index())
+        });
         let mut done = 0;
         while done < count {
             for entry in self.queue.iter().rev() {
@@ -312,6 +326,15 @@ impl<'l, T: Debug> OrderedLocalQueue<'l, T> {
                     break;
                 }
                 if let Some(item) = entry.value().pop() {
+                    #[cfg(open_coroutine_verif)]
+                    crate::common::verif::emit(|| {
+                        format!(
+                            r#""ev":"spill","q":{},"prio":{},"item":{:?}"#,
+                            self.verif_index(),
+                            entry.key(),
+                            format!("{item:?}")
+                        )
+                    });
                     self.shared.push_with_priority(*entry.key(), item);
                     done += 1;
                 }
@@ -428,6 +451,15 @@ impl<'l, T: Debug> OrderedLocalQueue<'l, T> {
                             })
                             .is_ok()
                         {
+                            #[cfg(open_coroutine_verif)]
+                            crate::common::verif::emit(|| {
+                                format!(
+                                    r#""ev":"steal","thief":{},"victim":{i},"prio":{},"n":{}"#,
+                                    self.verif_index(),
+                                    entry.key(),
+                                    into_queue.capacity() - into_queue.spare_capacity()
+                                )
+                            });
                             // refresh local len
                             self.len.store(
                                 self.local_len().saturating_add(
